@@ -13,7 +13,7 @@ import json, random, sys
 from .. import core, tlc, enc, corpus
 from . import c11
 
-PROP = "C24"; LEVEL = "exploration"
+PROP = "C24"; LEVEL = "model_checking"
 HARNESS_EXC = {"TypeError", "NameError", "AttributeError", "IndexError", "KeyError", "OverflowError", "AssertionError", "SyntaxError", "RecursionError",
                "UnboundLocalError", "ImportError", "ModuleNotFoundError", "Injected", "MemoryError", "StopIteration", "RuntimeError"}
 
